@@ -135,6 +135,16 @@ CHECKS["C18"] = (
     "common extra on every residue).",
     "Assumes TLC and the projection; masses compared are the library's own (C02 ties them to first principles).",
     "DESIGN.md §6 C18")
+CHECKS["C10"] = (
+    "TLA+ modification semantics (Mods.tla, laws model-checked in MC_Mods) + spelling rules (Trace_Resolver!Spellings) "
+    "+ TLC trace validation of recorded mod_mass / mod_comp / peptide-mass calls for every spelling of the bundled "
+    "Unimod, PSI-MOD, XLMOD and monosaccharide rows and for seeded generic forms",
+    "For every table row (read from the OBO files by an independent reader) TLC checks that each spelling used is a "
+    "documented one, that all spellings agree on monoisotopic mass, average mass, composition and peptide mass (or all "
+    "fail), that the resolved mass is the row's own, and that Unimod / monosaccharide tabulated masses equal the mass of "
+    "the tabulated composition; generic forms are judged against the independent semantics (Formula / Glycan / Obs / "
+    "prefixed numbers / tags / alternatives / multipliers).",
+    "Assumes TLC and the projection; 'the same error' is read as 'every spelling fails'.", "DESIGN.md §6 C10")
 NOT_YET = "check not built yet in this round (planned with the TLA+ technique, see DESIGN.md §6)"
 
 
